@@ -14,6 +14,7 @@ def ranks_jobs(harness, cfg, tier, ranks=(1, 2, 3, 4), extra_args=(), shards_tho
 
 
 CHECKS["C01"] = dict(
+    technique="explicit-state BFS over view states (bounded depth), every transition executed on the real typed view, lock-step affine reference model, all index tuples per state",
     title="view algebra",
     level="model_checking",
     engine="E1",
@@ -32,6 +33,7 @@ CHECKS["C01"] = dict(
 )
 
 CHECKS["C02"] = dict(
+    technique="explicit-state BFS over view states; exhaustive positions x offsets per state for every iterator family; address-level oracle",
     title="iterator / elements() random-access laws",
     level="model_checking",
     engine="E1",
@@ -48,6 +50,7 @@ CHECKS["C02"] = dict(
 )
 
 CHECKS["C05"] = dict(
+    technique="explicit-state BFS for state sets + exhaustive ordered pairs of equal-extent views x assignment forms; whole-buffer oracle",
     title="assignment through views",
     level="model_checking",
     engine="E1",
@@ -89,6 +92,7 @@ HIST_ASSUME = ["reference model engine/hist_model.hpp (value = extents + row-maj
                "std::move(a).reextent(x) is modelled as NOT preserving elements when extents change (array.hpp, test/reextent.cpp say so)"]
 
 CHECKS["C04"] = dict(
+    technique="explicit-state BFS over operation histories of a pool of owning arrays (replay on fresh objects, forked batches), lock-step value model + registry/ledger monitors",
     title="value semantics of owning arrays", level="model_checking", engine="E2",
     claim=("Every history of construct/copy/move/assign/swap/decay/element-write/reextent operations up to depth 3 (thorough 4-5) over the alphabet is executed on real arrays (D=1..4, tracked and trivial element "
            "types) and compared slot by slot with the value model after every step, plus storage disjointness, self-assignment and move/swap no-copy/no-allocation counters. Independence of copies is decided by "
@@ -96,12 +100,14 @@ CHECKS["C04"] = dict(
     jobs=lambda tier: hist_jobs("C04", tier), rule=HIST_RULE + " Reported for C04: violations of transitions whose last operation is a construct/copy/move/assign/swap/decay/element-write letter.", assumptions=HIST_ASSUME,
 )
 CHECKS["C06"] = dict(
+    technique="explicit-state BFS over operation histories; index-space intersection reference model for every (old,new) extents pair reachable",
     title="reextent / clear / reshape / assign", level="model_checking", engine="E2",
     claim=("reextent(x), reextent(x,v), rvalue reextent, reshape, assign(first,last), initializer-list assignment, clear and ={} are applied from EVERY state reachable within the depth bound (so for all "
            "(old,new) extents pairs of the shape menu, interleaved with all other mutators) and compared with the index-space intersection model; reextent to the current extents must keep data_elements()."),
     jobs=lambda tier: hist_jobs("C06", tier), rule=HIST_RULE + " Reported for C06: violations of transitions whose last operation is reextent/reshape/assign/clear/={}/={list}.", assumptions=HIST_ASSUME,
 )
 CHECKS["C08"] = dict(
+    technique="explicit-state BFS over operation histories with live-object registry, per-instance allocation ledger and pre-fill oracle on every transition",
     title="construct once / destroy once / storage returned", level="model_checking", engine="E2",
     claim=("The live-object registry (construct-over-live, use/assign/destroy of a dead object), the allocation ledger (unknown/double/size-mismatched deallocate, outstanding blocks/elements when the pool dies) "
            "and the 0xA5 pre-fill oracle (sizing constructors and reextent must not write trivially-default-constructible elements) are evaluated on every transition of the E2 search over the full alphabet."),
@@ -128,6 +134,7 @@ def alloc_jobs(prop, tier, cfg="san", combos=None):
 
 
 CHECKS["C10"] = dict(
+    technique="explicit-state BFS over operation histories re-instantiated for every propagation-trait configuration, equal and unequal allocator instances, pmr resources; container-requirements model",
     title="allocator provenance and propagation", level="model_checking", engine="E2",
     claim=("The E2 history search is re-instantiated for a stateful allocator with every combination of propagate_on_container_{copy_assignment,move_assignment,swap} (plus select_on_container_copy_construction "
            "returning a fresh instance), with slots living on equal AND unequal instances; after every transition get_allocator() is compared with the container-requirements model, every owned block must have been "
@@ -152,6 +159,7 @@ def fault_jobs(tier):
 
 
 CHECKS["C09"] = dict(
+    technique="exhaustive single-fault placement (every allocation / element construction / element assignment) over every transition of the bounded history search",
     title="failures leave no leak and valid arrays", level="fault_enumeration", engine="E2",
     claim=("For every transition of the E2 history search (depth 2 quick / 3 thorough, D=1..2(3), tracked and trivial elements) EVERY single fault placement inside the operation is executed: the k-th allocation, element "
            "construction (default/copy/move/converting) or element assignment throws, for all k counted by an unarmed run of the same transition. Each placement runs in a forked child; afterwards: the exception reached the "
@@ -165,6 +173,7 @@ CHECKS["C09"] = dict(
 )
 
 CHECKS["C17"] = dict(
+    technique="exhaustive grid of element type x D x shape x archive x prior state, ordered pairs of equal-extent views from the E1 state sets, and serialisation-load as a letter of the history search",
     title="serialization round trips", level="exploration", engine="E2",
     claim=("Complete grid: element type {int,double,std::string,nested array<int,1>} x D=0..4 x shape menu (incl. zero extents) x archive kind {text,binary,xml} x prior state of the loading array "
            "{default, same extents, other count, permuted extents with the same count, cleared, moved-from, larger}; and all ordered pairs (saved view, loading view) of equal extents from the E1 state sets "
@@ -176,6 +185,7 @@ CHECKS["C17"] = dict(
 )
 
 CHECKS["C07"] = dict(
+    technique="exhaustive enumeration of value pairs x representation pairs x constness x operators against nested-sequence semantics",
     title="equality and ordering", level="exploration", engine="E4",
     claim=("Complete enumeration: every ordered pair of logical values over a small alphabet (D=0: {0,1,2}; D=1: all vectors of length 0..3 over {0,1,2}; D=2..4: all arrays of a shape menu over {0,1}, including "
            "pairs of different extents with equal flat contents and empty operands) x 16 representation pairs (owning array, static_array, array_ref, view of rotated storage, padded sub-block, array<short>, view "
@@ -189,6 +199,7 @@ CHECKS["C07"] = dict(
 )
 
 CHECKS["C16"] = dict(
+    technique="compile-time explicit-state exploration of access paths (expression types x const-taint; template memoisation = visited set) + exhaustive compile probes of whole-view mutators",
     title="const-ness propagation", level="model_checking", engine="E3",
     claim=("Explicit-state exploration of the graph of access paths at compile time: a state is a real C++ expression type (with value category) plus a const-taint bit, a transition applies one of 48 accessors in "
            "unevaluated context, template instantiation memoisation is the visited set; from 10 roots per rank (array, array const, static_array, array_ref, views held by auto&&, auto& and auto const&) to depth 3 "
@@ -206,6 +217,7 @@ CHECKS["C16"] = dict(
 )
 
 CHECKS["C03"] = dict(
+    technique="exhaustive enumeration of algorithm x range kind x view x all small data assignments; differential against std:: algorithm on independent values",
     title="standard algorithms on array/view ranges", level="exploration", engine="E1",
     claim=("For each of the 20 listed algorithms x three range kinds (begin/end of 1-D views, begin/end of 2-D/3-D views whose dereference is a proxy sub-view, elements() of 2-D/3-D views) x a menu of views "
            "(rows, columns via rotated/transposed, diagonals, strided, sub-blocks, sub-blocks of rotated arrays, empty and one-element ranges) x ALL assignments of the viewed elements over a small alphabet "
@@ -219,6 +231,7 @@ CHECKS["C03"] = dict(
 )
 
 CHECKS["C19"] = dict(
+    technique="explicit-state BFS over view states from re-based roots with a positional twin model; exhaustive (old,new) index-extension pairs for reextent",
     title="index bases are transparent", level="model_checking", engine="E1",
     claim=("The E1 view-state search is run from re-based roots (array_ref over explicit index extensions with firsts in {-1,0,2} per dimension, D=1..4) with reindexed/blocked/stenciled added to the alphabet; every "
            "index-valued argument is expressed in the view's own reported index space and the model is the positionally identical zero-based twin. At every state: element addresses position-wise through all access "
@@ -251,6 +264,7 @@ def c20_jobs(tier):
 
 
 CHECKS["C20"] = dict(
+    technique="explicit-state BFS supplies states; every out-of-range index / mismatched-extent assignment probe in a forked child; the C01-C07 explorers re-run in three build configurations",
     title="debug contracts", level="model_checking", engine="E1",
     claim=("(b) At every E1 view state (depth 1 quick / 2 thorough, D=1..4 roots on exactly-sized heap storage) every out-of-range index (first-1 and last in each dimension, through [] and through call syntax, followed "
            "by a READ) and every assignment from a source whose extents differ in one dimension or are permuted with equal count (5 assignment forms) is executed in a forked child of the assertion-enabled ASan build and must "
@@ -265,6 +279,7 @@ CHECKS["C20"] = dict(
 )
 
 CHECKS["C12"] = dict(
+    technique="explicit-state BFS over view states (mutable and const roots) x projections x one more view operation x all index tuples; addresses/values from the model's offsets",
     title="projection views", level="model_checking", engine="E1",
     claim=("At every E1 view state (depth 2 quick / 3 thorough; roots of int and of struct{int a,b,c} elements, D=1..3, reached through mutable AND const roots) every projection is applied and checked at EVERY index tuple "
            "through call syntax and brackets: element_transformed with a by-value function (value = f(source) at access time: the source is modified between two reads) and with reference-returning functions (address identity, "
@@ -295,6 +310,7 @@ def c11_jobs(tier):
 
 
 CHECKS["C11"] = dict(
+    technique="the explorers of C01/C02/C05/C04/C06/C08/C07 re-instantiated over a provenance-tracking user-defined pointer; same reference models",
     title="independence of the pointer type", level="model_checking", engine="E1",
     claim=("The explorers of C01 (view algebra), C02 (iterator laws), C05 (assignment through views), C04/C06/C08 (histories of owning arrays) and C07 (comparisons) are re-instantiated over fancy::ptr<T>, a minimal user-defined "
            "random-access pointer (no implicit conversion to or from raw pointers, proxy-free references) that carries the provenance [lo,hi) of its storage: array_ref<T,D,fancy::ptr<T>> roots for the view explorers and an "
@@ -315,6 +331,7 @@ def sharded(harness, tier, n=16, cfg="san", libs=(), cxx=None, extra_args=(), de
 
 
 CHECKS["C14"] = dict(
+    technique="exhaustive configuration-grid enumeration with known-factor / reconstruction oracles; compile probes for the headers",
     title="LAPACK adaptor", level="exploration", engine="E4",
     claim=("Complete configuration grid for potrf, geqrf and gesvd (two call forms): element types x sizes 0/1..4 x six matrix layouts (owning, row-major contiguous, row-major padded block, column-major contiguous, "
            "column-major padded block, inner stride 2) x vector layouts x triangle selection x ALL small integer factors / matrices of the stated families (potrf: every unit-or-2-diagonal factor with 0/1 entries, plus "
@@ -329,6 +346,7 @@ CHECKS["C14"] = dict(
 )
 
 CHECKS["C15"] = dict(
+    technique="exhaustive configuration-grid enumeration; each configuration decided on the complete basis of the input space against the direct DFT",
     title="FFTW adaptor", level="exploration", engine="E4",
     claim=("Complete grid: D=1..3 (thorough adds D=4) x all extents over {1..4} ({1..5} thorough) x ALL 2^D masks of transformed dimensions x both signs x 49 ordered (input layout, output layout) pairs out-of-place + 7 layouts "
            "in-place (contiguous, rotated, unrotated, transposed, padded sub-block, strided-by-2 block, sub-block of rotated). Because the DFT is linear, each configuration is decided on the COMPLETE BASIS (delta_k and i*delta_k for "
@@ -341,6 +359,7 @@ CHECKS["C15"] = dict(
 )
 
 CHECKS["C13"] = dict(
+    technique="exhaustive configuration-grid enumeration (operation x layouts x sizes x scalars x element types) against an exact integer reference; outcome classification in forked children",
     title="BLAS adaptor", level="exploration", engine="E4",
     claim=("Complete configuration grid over the BLAS adaptor: gemm (in-place, assigned/added lazy range, new array), gemv, dot (three forms), axpy, scal, copy, swap, nrm2, asum, iamax, herk, syrk, trsm (side x fill x diag) x element "
            "types (quick: double, complex<double>; thorough: all four) x per-operand layout variants (plain, transposed storage, padded sub-block, padded sub-block of transposed storage, conjugated / hermitised of each, also as "
@@ -354,6 +373,7 @@ CHECKS["C13"] = dict(
 )
 
 CHECKS["C18"] = dict(
+    technique="explicit-state BFS over view states; per state and per ordered state pair MPI_Pack/MPI_Unpack against the model's canonical order; PMPI datatype ledger",
     title="MPI messages", level="model_checking", engine="E1",
     claim=("Every E1 view state (depth 2 quick / 3 thorough, array_ref roots D=1..4, int and double) is turned into the adaptor's (buffer, count, datatype) messages (message(elements), skeleton(layout), message(base, skeleton), "
            "datatype(), create_subarray, data(begin) with count 1); each is MPI_Pack-ed on MPI_COMM_SELF and the packed bytes are compared with the model's canonical-order element sequence (count, order, nothing else); for ordered "
